@@ -14,6 +14,8 @@ import math
 
 import numpy as np
 
+import contextlib
+import io
 import common
 import toast_terms as TT
 
@@ -325,6 +327,25 @@ def run(ctx, V):
                 for t in tiles:
                     if rng.random() < (0.3 if quick else 0.5):
                         add_tile("generate_tiles_filtered", planet, t)
+
+            # 2b. the Pyramid route with pyramids of BOTH systems alive at once (seeded change C04-o kept the
+            #     system on the class, so the object made last decided for all): each object hands out the
+            #     tiles of the system it was made with
+            from toasty.pyramid import Pyramid
+            _before = [Pyramid.new_toast(2, coordsys=c2) for c2 in TT.coordsystems()]
+            mine = Pyramid.new_toast(2, coordsys=cs)
+            _after = [Pyramid.new_toast(1, coordsys=c2) for c2 in reversed(TT.coordsystems())]
+            seen = {}
+            with contextlib.redirect_stdout(io.StringIO()):
+                mine.visit_leaves(lambda pos, tile: seen.__setitem__((pos.n, pos.x, pos.y), tile), parallel=1)
+            if sorted(seen) != sorted(p for p in by_pos if p[0] == 2):
+                prop_fail[planet].append("Pyramid.new_toast(2).visit_leaves does not visit the level-2 positions once each")
+            for pp, tile in seen.items():
+                if pp in by_pos and (TT.tile_floats(tile), bool(tile.increasing)) != by_pos[pp]:
+                    prop_fail[planet].append(f"a Pyramid made for this system, with pyramids of the other system alive, hands out "
+                                             f"another tile at {pp} than generate_tiles in the same system")
+                    break
+            hist["pyramid_route/depth2"] = hist.get("pyramid_route/depth2", 0) + len(seen)
 
             # 3. create_single_tile: exhaustive to depth 3, random deep positions
             poss = [(n, x, y) for n in range(1, 4) for x in range(2 ** n) for y in range(2 ** n)]
